@@ -8,6 +8,7 @@ import (
 	"go/token"
 	"go/types"
 	"strings"
+	"sync"
 
 	"golang.org/x/tools/go/ssa"
 
@@ -29,12 +30,26 @@ func (f tlsFact) String() string {
 	return "!" + core.Render(f.V)
 }
 
-// tlsNorm strips logical negations.
+// tlsNorm strips logical negations and comparisons with boolean constants
+// (`ok == false`, `found != true`).
 func tlsNorm(v ssa.Value, pol bool) tlsFact {
 	for {
 		if u, ok := v.(*ssa.UnOp); ok && u.Op == token.NOT {
 			v, pol = u.X, !pol
 			continue
+		}
+		if b, ok := v.(*ssa.BinOp); ok && (b.Op == token.EQL || b.Op == token.NEQ) {
+			x, k := b.X, b.Y
+			if _, isK := tlsIsBoolConst(x); isK {
+				x, k = k, x
+			}
+			if bv, isK := tlsIsBoolConst(k); isK {
+				if (b.Op == token.EQL) != bv {
+					pol = !pol
+				}
+				v = x
+				continue
+			}
 		}
 		return tlsFact{v, pol}
 	}
@@ -155,49 +170,294 @@ func tlsEstablished(b *ssa.BasicBlock, want func(tlsFact) bool) bool {
 // tlsDomGuarded: on every path reaching b a fact accepted by want has been
 // established: either directly (dominating branch) or, at a merge point on the
 // dominator chain, on every incoming edge (the shape of `if A && !B { bail }`
-// and `if A || B { bail }` continuations).
+// and `if A || B { bail }` continuations). A branch on a boolean phi (a named
+// boolean such as `bad := A && !B`, evaluated before the `if`) is read through
+// the phi: the condition must be entailed on every edge through which the phi
+// can take the observed value (tlsImplies). Incoming edges of a merge point
+// that contradict a comparison established between the merge point and b
+// (`for … { if x { break } }; if i < 0 { panic }` - the loop-exit edge carries
+// !(i >= 0)) cannot lie on a path to b and are skipped.
 func tlsDomGuarded(b *ssa.BasicBlock, want func(tlsFact) bool) bool {
-	return tlsDomGuardedRec(b, want, map[*ssa.BasicBlock]bool{}, 0)
+	budget := 400000
+	return tlsDomGuardedRec(b, want, map[*ssa.BasicBlock]bool{}, 0, nil, &budget)
 }
 
-func tlsDomGuardedRec(b *ssa.BasicBlock, want func(tlsFact) bool, visiting map[*ssa.BasicBlock]bool, depth int) bool {
+// The budget bounds the work of one tlsDomGuarded query (merge points are
+// explored recursively without memoisation); when it is exhausted the guard
+// counts as not established (an alarm, never a silent pass).
+
+// tlsOpSet maps a comparison to the subset of {<, =, >} it admits (bits 1, 2, 4).
+func tlsOpSet(op token.Token) int {
+	switch op {
+	case token.LSS:
+		return 1
+	case token.LEQ:
+		return 3
+	case token.EQL:
+		return 2
+	case token.GEQ:
+		return 6
+	case token.GTR:
+		return 4
+	case token.NEQ:
+		return 5
+	}
+	return 7
+}
+
+// tlsSameVal: the same SSA value, or two constants of the same type and value
+// (go/ssa does not share constant objects).
+func tlsSameVal(a, b ssa.Value) bool {
+	if a == b {
+		return true
+	}
+	ka, okA := a.(*ssa.Const)
+	kb, okB := b.(*ssa.Const)
+	if !okA || !okB || !types.Identical(ka.Type(), kb.Type()) {
+		return false
+	}
+	if ka.Value == nil || kb.Value == nil {
+		return ka.Value == nil && kb.Value == nil
+	}
+	return constant.Compare(ka.Value, token.EQL, kb.Value)
+}
+
+// tlsContradict: the two facts cannot hold together (same condition with
+// opposite truth values, or two comparisons of the same operands without a
+// common solution).
+func tlsContradict(f, g tlsFact) bool {
+	if f.V == g.V {
+		return f.Pol != g.Pol
+	}
+	x1, y1, op1, ok1 := tlsRel(f)
+	x2, y2, op2, ok2 := tlsRel(g)
+	if !ok1 || !ok2 {
+		return false
+	}
+	if tlsSameVal(x1, y2) && tlsSameVal(y1, x2) && !tlsSameVal(x1, y1) {
+		x2, y2, op2 = y2, x2, tlsFlip(op2)
+	}
+	if !tlsSameVal(x1, x2) || !tlsSameVal(y1, y2) {
+		return false
+	}
+	return tlsOpSet(op1)&tlsOpSet(op2) == 0
+}
+
+// ---- frames: reading a fact through a boolean helper ------------------------
+
+// tlsEnv binds the parameters of a helper to the arguments of the call that
+// is being read through (see tlsImplies): while a binding is active the value
+// matchers below see the caller's argument in place of the helper's parameter,
+// so a guard extracted into `func sessionOK(s *sessionState, auth ClientAuthType) bool`
+// is matched by the same predicates as the inline code.
+var (
+	tlsEnvMu sync.Mutex
+	tlsEnv   = map[ssa.Value]ssa.Value{}
+)
+
+// tlsResolve maps a bound helper parameter to the caller's argument.
+func tlsResolve(v ssa.Value) ssa.Value {
+	if _, isP := v.(*ssa.Parameter); !isP {
+		return v
+	}
+	tlsEnvMu.Lock()
+	defer tlsEnvMu.Unlock()
+	for i := 0; i < 4; i++ {
+		a, ok := tlsEnv[v]
+		if !ok {
+			break
+		}
+		v = a
+	}
+	return v
+}
+
+func tlsBind(h *ssa.Function, args []ssa.Value) func() {
+	tlsEnvMu.Lock()
+	var bound []ssa.Value
+	for i, p := range h.Params {
+		if i < len(args) {
+			if _, dup := tlsEnv[p]; !dup {
+				tlsEnv[p] = args[i]
+				bound = append(bound, p)
+			}
+		}
+	}
+	tlsEnvMu.Unlock()
+	return func() {
+		tlsEnvMu.Lock()
+		for _, p := range bound {
+			delete(tlsEnv, p)
+		}
+		tlsEnvMu.Unlock()
+	}
+}
+
+// tlsBoolHelper: v is a call of an in-module function with a body and a single
+// boolean result (a predicate helper).
+func tlsBoolHelper(v ssa.Value) (*ssa.Call, *ssa.Function) {
+	call, ok := v.(*ssa.Call)
+	if !ok || call.Call.IsInvoke() {
+		return nil, nil
+	}
+	h := call.Call.StaticCallee()
+	if h == nil || h.Blocks == nil || core.FuncPkgRel(h) == "" || h.Signature.Results().Len() != 1 {
+		return nil, nil
+	}
+	// a predicate helper is a small unexported function (an extracted
+	// condition); parsers and whole protocol steps that happen to return a
+	// bool are not read through
+	if len(h.Blocks) > 24 || h.Object() == nil || h.Object().Exported() {
+		return nil, nil
+	}
+	if b, ok := h.Signature.Results().At(0).Type().Underlying().(*types.Basic); !ok || b.Kind() != types.Bool {
+		return nil, nil
+	}
+	return call, h
+}
+
+// tlsOnCycle: b can reach itself.
+func tlsOnCycle(b *ssa.BasicBlock) bool {
+	seen := map[*ssa.BasicBlock]bool{}
+	work := append([]*ssa.BasicBlock(nil), b.Succs...)
+	for len(work) > 0 {
+		x := work[len(work)-1]
+		work = work[:len(work)-1]
+		if x == b {
+			return true
+		}
+		if seen[x] {
+			continue
+		}
+		seen[x] = true
+		work = append(work, x.Succs...)
+	}
+	return false
+}
+
+// tlsImplies: the fact f entails a fact accepted by want - f itself or, when
+// f.V is a boolean phi (&&, ||, a flag variable, a named boolean), on every
+// edge through which the phi can carry the value f.Pol: the edge's value, the
+// branch taken into the phi's block, or what is established on every path to
+// the edge's source block.
+func tlsImplies(f tlsFact, want func(tlsFact) bool, visiting map[*ssa.BasicBlock]bool, depth int, below []tlsFact, budget *int) bool {
+	if want(f) {
+		return true
+	}
 	if depth > 12 {
 		return false
 	}
+	// a predicate helper: `if !sessionOK(s, auth) { return false }`. The call
+	// returned f.Pol, so one of the helper's returns that can produce f.Pol
+	// was taken; what is established at every such return (read in the
+	// caller's terms) holds.
+	if call, h := tlsBoolHelper(f.V); h != nil && depth < 8 {
+		// (depth+8 below: predicate helpers are read one level deep only)
+		unbind := tlsBind(h, call.Call.Args)
+		defer unbind()
+		n := 0
+		for _, r := range core.Returns(h) {
+			rv := core.RetVals(r)
+			if len(rv) != 1 {
+				return false
+			}
+			ok := false
+			if bv, isK := tlsIsBoolConst(rv[0]); isK {
+				if bv != f.Pol {
+					continue
+				}
+			} else {
+				ok = tlsImplies(tlsNorm(rv[0], f.Pol), want, map[*ssa.BasicBlock]bool{}, depth+8, nil, budget)
+			}
+			n++
+			if !ok && !tlsDomGuardedRec(r.Block(), want, map[*ssa.BasicBlock]bool{}, depth+8, nil, budget) {
+				return false
+			}
+		}
+		return n > 0
+	}
+	phi, ok := f.V.(*ssa.Phi)
+	if !ok {
+		return false
+	}
+	if b, ok := phi.Type().Underlying().(*types.Basic); !ok || b.Kind() != types.Bool {
+		return false
+	}
+	if len(phi.Edges) != len(phi.Block().Preds) {
+		return false
+	}
+	n := 0
+	for i, e := range phi.Edges {
+		pred := phi.Block().Preds[i]
+		ok := false
+		if bv, isK := tlsIsBoolConst(e); isK {
+			if bv != f.Pol {
+				continue
+			}
+		} else {
+			ok = tlsImplies(tlsNorm(e, f.Pol), want, visiting, depth+1, below, budget)
+		}
+		n++
+		if !ok {
+			if bf, has := tlsBranch(pred, phi.Block()); has {
+				ok = tlsImplies(bf, want, visiting, depth+1, below, budget)
+			}
+		}
+		if !ok && !tlsDomGuardedRec(pred, want, visiting, depth+2, below, budget) {
+			return false
+		}
+	}
+	return n > 0
+}
+
+func tlsDomGuardedRec(b *ssa.BasicBlock, want func(tlsFact) bool, visiting map[*ssa.BasicBlock]bool, depth int, below []tlsFact, budget *int) bool {
+	if depth > 12 || *budget <= 0 {
+		return false
+	}
+	*budget--
+	below = append([]tlsFact(nil), below...)
 	seen := map[*ssa.BasicBlock]bool{}
 	for cur := b; cur != nil && !seen[cur]; {
 		seen[cur] = true
 		if len(cur.Preds) == 1 {
 			p := cur.Preds[0]
 			if f, ok := tlsBranch(p, cur); ok {
-				for _, x := range tlsExpand(f, 0) {
-					if want(x) {
-						return true
-					}
+				if tlsImplies(f, want, visiting, depth+1, below, budget) {
+					return true
 				}
+				below = append(below, f)
 			}
 			cur = p
 			continue
 		}
 		if len(cur.Preds) >= 2 && !visiting[cur] {
 			visiting[cur] = true
-			all := true
+			all, feasible := true, 0
+			// pruning compares SSA values across the merge point: only sound
+			// when the merge point is not on a cycle (one instance per value)
+			prune := len(below) > 0 && !tlsOnCycle(cur)
 			for _, p := range cur.Preds {
 				ok := false
 				if f, has := tlsBranch(p, cur); has {
-					for _, x := range tlsExpand(f, 0) {
-						if want(x) {
-							ok = true
+					infeasible := false
+					for _, g := range below {
+						if prune && tlsContradict(f, g) {
+							infeasible = true
 						}
 					}
+					if infeasible {
+						continue
+					}
+					ok = tlsImplies(f, want, visiting, depth+1, below, budget)
 				}
-				if !ok && !tlsDomGuardedRec(p, want, visiting, depth+1) {
+				feasible++
+				if !ok && !tlsDomGuardedRec(p, want, visiting, depth+1, below, budget) {
 					all = false
 					break
 				}
 			}
 			delete(visiting, cur)
-			if all {
+			if all && feasible > 0 {
 				return true
 			}
 		}
@@ -312,15 +572,15 @@ func tlsLoad(v ssa.Value) (ssa.Value, bool) {
 // tlsFieldOf: v is the value of field f of base (a load of &base.f, or
 // base.f on a struct value); conversions are peeled.
 func tlsFieldOf(v ssa.Value) (f *types.Var, base ssa.Value) {
-	v = core.StripConv(v)
+	v = core.StripConv(tlsResolve(core.StripConv(v)))
 	if a, ok := tlsLoad(v); ok {
 		if fa, ok := a.(*ssa.FieldAddr); ok {
-			return core.FieldObj(fa.X, fa.Field), fa.X
+			return core.FieldObj(fa.X, fa.Field), tlsResolve(fa.X)
 		}
 		return nil, nil
 	}
 	if fv, ok := v.(*ssa.Field); ok {
-		return core.FieldObj(fv.X, fv.Field), fv.X
+		return core.FieldObj(fv.X, fv.Field), tlsResolve(fv.X)
 	}
 	return nil, nil
 }
@@ -344,21 +604,21 @@ func tlsFieldAddrOf(addr ssa.Value) (*types.Var, ssa.Value) {
 
 // tlsElemOf: v is an element read list[i]; returns the list value.
 func tlsElemOf(v ssa.Value) (ssa.Value, bool) {
-	v = core.StripConv(v)
+	v = core.StripConv(tlsResolve(core.StripConv(v)))
 	if a, ok := tlsLoad(v); ok {
 		if ia, ok := a.(*ssa.IndexAddr); ok {
-			return ia.X, true
+			return tlsResolve(ia.X), true
 		}
 	}
 	if ix, ok := v.(*ssa.Index); ok {
-		return ix.X, true
+		return tlsResolve(ix.X), true
 	}
 	return nil, false
 }
 
 // tlsCallOf: v is the (single) result of a call to one of names.
 func tlsCallOf(v ssa.Value, names ...string) *ssa.Call {
-	c, ok := core.StripConv(v).(*ssa.Call)
+	c, ok := core.StripConv(tlsResolve(core.StripConv(v))).(*ssa.Call)
 	if !ok || !core.CallIs(&c.Call, names...) {
 		return nil
 	}
@@ -367,7 +627,7 @@ func tlsCallOf(v ssa.Value, names ...string) *ssa.Call {
 
 // tlsExtractOf: v is result #i of a call; returns the call.
 func tlsExtractOf(v ssa.Value, i int) *ssa.Call {
-	ex, ok := core.StripConv(v).(*ssa.Extract)
+	ex, ok := core.StripConv(tlsResolve(core.StripConv(v))).(*ssa.Extract)
 	if !ok || ex.Index != i {
 		return nil
 	}
@@ -376,7 +636,7 @@ func tlsExtractOf(v ssa.Value, i int) *ssa.Call {
 }
 
 func tlsConstInt(v ssa.Value) (int64, bool) {
-	k, ok := core.StripConv(v).(*ssa.Const)
+	k, ok := core.StripConv(tlsResolve(core.StripConv(v))).(*ssa.Const)
 	if !ok || k.Value == nil || k.Value.Kind() != constant.Int {
 		return 0, false
 	}
@@ -385,7 +645,7 @@ func tlsConstInt(v ssa.Value) (int64, bool) {
 }
 
 func tlsIsNil(v ssa.Value) bool {
-	k, ok := v.(*ssa.Const)
+	k, ok := tlsResolve(v).(*ssa.Const)
 	return ok && k.Value == nil
 }
 
@@ -437,12 +697,21 @@ func tlsParam(fn *ssa.Function, name string) *ssa.Parameter {
 	return nil
 }
 
+// tlsParamAt returns parameter #i of fn (the receiver is #0). Parameters are
+// identified by position: their names are free to change.
+func tlsParamAt(fn *ssa.Function, i int) *ssa.Parameter {
+	if fn == nil || i < 0 || i >= len(fn.Params) {
+		return nil
+	}
+	return fn.Params[i]
+}
+
 // tlsIsParam: v is (a load of the spill slot of) parameter p.
 func tlsIsParam(v ssa.Value, p *ssa.Parameter) bool {
 	if p == nil {
 		return false
 	}
-	v = core.StripConv(v)
+	v = core.StripConv(tlsResolve(core.StripConv(v)))
 	if v == p {
 		return true
 	}
@@ -504,4 +773,34 @@ func tlsPhiLeaves(v ssa.Value) []ssa.Value {
 	}
 	walk(v)
 	return out
+}
+
+// tlsStoredValue: when v is a load of a local slot (a variable that lives in
+// memory: named result with defer, captured variable) returns the value of the
+// last store to that slot that precedes the load in the same block; otherwise v.
+func tlsStoredValue(v ssa.Value) ssa.Value {
+	u, ok := v.(*ssa.UnOp)
+	if !ok || u.Op != token.MUL {
+		return v
+	}
+	a, ok := u.X.(*ssa.Alloc)
+	if !ok {
+		return v
+	}
+	instrs := u.Block().Instrs
+	at := -1
+	for i, in := range instrs {
+		if in == ssa.Instruction(u) {
+			at = i
+		}
+	}
+	for i := at - 1; i >= 0; i-- {
+		if st, ok := instrs[i].(*ssa.Store); ok && st.Addr == ssa.Value(a) {
+			return st.Val
+		}
+		if _, isCall := instrs[i].(ssa.CallInstruction); isCall && a.Heap {
+			return v // the slot may be written by the callee (captured variable)
+		}
+	}
+	return v
 }
